@@ -5,6 +5,7 @@ trace `D - m`, positive semidefinite; its partial transpose is the complement pr
 import NumqiProofs.Catalogue
 import Mathlib.Data.Complex.Basic
 import Mathlib.Data.Complex.BigOperators
+import Mathlib.Data.List.GetD
 
 set_option linter.unusedSectionVars false
 
@@ -203,5 +204,62 @@ theorem ptB_upbCompl (m dB : ℕ) (hB : 0 < dB) (u v : ℕ → ℕ → ℂ) (r c
     refine Finset.sum_congr rfl fun a _ => ?_
     simp only [prodVec, hr1, hr2, hc1, hc2, map_mul, Complex.conj_conj]
     ring
+
+/-! ### `get_upb_product` (`upbProductRow`, what the driver runs) is `prodVec` -/
+
+theorem flatMap_map_getD {M : Type} [Mul M] [Zero M] (l v : List M) (hn : 0 < v.length) (i : ℕ)
+    (hi : i < l.length * v.length) :
+    (l.flatMap fun x => v.map fun y => x * y).getD i 0 = l.getD (i / v.length) 0 * v.getD (i % v.length) 0 := by
+  induction l generalizing i with
+  | nil => simp at hi
+  | cons x l ih =>
+    rw [List.flatMap_cons]
+    by_cases h : i < v.length
+    · rw [List.getD_append _ _ _ _ (by simpa using h), Nat.div_eq_of_lt h, Nat.mod_eq_of_lt h]
+      simp [List.getD_eq_getElem?_getD, List.getElem?_map, h]
+      rw [List.getElem?_eq_getElem h]; rfl
+    · have h' : v.length ≤ i := not_lt.mp h
+      rw [List.getD_append_right _ _ _ _ (by simpa using h')]
+      simp only [List.length_map]
+      have hi' : i - v.length < l.length * v.length := by
+        rw [List.length_cons, Nat.succ_mul] at hi; omega
+      rw [ih (i - v.length) hi']
+      have e1 : i / v.length = (i - v.length) / v.length + 1 := by
+        rw [← Nat.sub_add_cancel h', Nat.add_div_right _ hn]; simp
+      have e2 : i % v.length = (i - v.length) % v.length := by
+        conv_lhs => rw [← Nat.sub_add_cancel h', Nat.add_mod_right]
+      rw [e1, e2, List.getD_cons_succ]
+
+/-- appending a party multiplies in a new last (fastest) index -/
+theorem upbProductRow_append {M : Type} [Mul M] [One M] (rows : List (List M)) (v : List M) :
+    upbProductRow (rows ++ [v]) = (upbProductRow rows).flatMap fun x => v.map fun y => x * y := by
+  unfold upbProductRow; rw [List.foldl_append]; rfl
+
+theorem upbProductRow_length {M : Type} [Mul M] [One M] (rows : List (List M)) :
+    (upbProductRow rows).length = (rows.map List.length).foldl (· * ·) 1 := by
+  induction rows using List.reverseRecOn with
+  | nil => rfl
+  | append_singleton rows v ih =>
+    rw [upbProductRow_append, List.length_flatMap]
+    simp only [List.length_map, List.map_const', List.sum_replicate, smul_eq_mul, List.map_append, List.map_cons, List.map_nil,
+      List.foldl_append, List.foldl_cons, List.foldl_nil, ih]
+
+/-- **bridge**: the entries of the driver's product vector of two parties are those of `prodVec` -/
+theorem upbProductRow_two {M : Type} [MonoidWithZero M] (u v : List M) (hv : 0 < v.length) (x : ℕ) (hx : x < u.length * v.length) :
+    (upbProductRow [u, v]).getD x 0 = prodVec v.length (fun _ t => u.getD t 0) (fun _ t => v.getD t 0) 0 x := by
+  have e : upbProductRow [u, v] = u.flatMap fun a => v.map fun y => a * y := by
+    have := upbProductRow_append [u] v
+    simp only [List.singleton_append] at this
+    rw [this]
+    have h1 : upbProductRow [u] = u := by simp [upbProductRow]
+    rw [h1]
+  rw [e, flatMap_map_getD u v hv x hx]; rfl
+
+/-- … and for any number of parties, one party at a time: the last party carries the fastest index -/
+theorem upbProductRow_step {M : Type} [MonoidWithZero M] (rows : List (List M)) (v : List M) (hv : 0 < v.length) (x : ℕ)
+    (hx : x < (upbProductRow rows).length * v.length) :
+    (upbProductRow (rows ++ [v])).getD x 0
+      = prodVec v.length (fun _ t => (upbProductRow rows).getD t 0) (fun _ t => v.getD t 0) 0 x := by
+  rw [upbProductRow_append, flatMap_map_getD _ v hv x hx]; rfl
 
 end Numqi.Catalogue
